@@ -2,6 +2,7 @@ package props
 
 import (
 	"bytes"
+	"encoding/json"
 	"fmt"
 	"regexp"
 	"strings"
@@ -197,7 +198,35 @@ func genC12(seed uint64, run int, tier string) Scenario {
 	}
 	sc.Ops = append(sc.Ops, OpSpec{Kind: "close"})
 	sc.Class = sc.Driver + "/" + flavour
-	sc.CutEnum = pickCutEnum(run, 6)
+	sc.CutEnum = pickCutEnum(run, 10)
+	if flavour == "dialogue" && r.IntN(5) == 0 {
+		// an earlier connection of the same process, to another device (same dialogues, other
+		// host name, hence a prompt pattern of its own), on which the caller uses the very same
+		// event objects it passes to this connection's dialogues afterwards
+		const pfx = "q.q-"
+		b, _ := json.Marshal(sc)
+		prior := &Session{}
+		_ = json.Unmarshal(b, prior)
+		for _, m := range prior.Dev.Modes {
+			if m.Name == "exec" {
+				m.Prompt = pfx + m.Prompt
+			}
+		}
+		prior.PromptPattern = `(?im)^` + regexp.QuoteMeta(pfx) + `[a-z\d.\-@()/:]{1,48}[#>$]\s*$`
+		prior.TimeoutOpsUS = sc.ReadDelayUS * 1500
+		prior.CutEnum = false
+		for i := range sc.Ops {
+			if sc.Ops[i].Kind != "interactive" {
+				continue
+			}
+			sc.Ops[i].ShareKey = fmt.Sprintf("events-%d", i)
+			prior.Ops[i].ShareKey = sc.Ops[i].ShareKey
+			for j, c := range prior.Ops[i].Complete {
+				prior.Ops[i].Complete[j] = strings.Replace(c, `(?m)^`, `(?m)^`+regexp.QuoteMeta(pfx), 1)
+			}
+		}
+		sc.Prior = prior
+	}
 
 	return sc
 }
